@@ -27,5 +27,21 @@ PROPS = {
         level_note="Trusts Go's numeric conversions for values representable in both types, Alloc/Slice/AppendSample to build fixtures (themselves decided by C13/C02/C04), and the harness model.",
     ),
 }
+PROPS["C02"] = dict(
+    pkg="c02", idx=2,
+    rule=("Cases = element type x channels x root size x chain of 1-5 Slice(start,end) calls, each valid (end beyond the length, "
+          "start 0, general) or invalid (start<0, start>end, end>capacity by 1 / by much, extreme magnitudes whose product with the "
+          "channel count overflows). Oracle: Go-slice model (off,len,cap) in frames; child header, additive composition, sharing "
+          "probed by writing stamps through the child and reading through parent and root and back, capacity region read through a "
+          "capacity-long reslice, parent header and root storage unchanged; invalid ranges must panic and change nothing. "
+          "Non-trivial: end beyond parent length, nesting depth >= 2, parent is an offset window, invalid range, overflowing argument."),
+    quick=dict(rapid=dict(checks=40000, shards=2)),
+    thorough=dict(rapid=dict(checks=200000, shards=16), fuzz=dict(targets=["FuzzC02"], seconds=30)),
+    assumptions=COMMON_ASSUME,
+    technique="property-based testing (rapid) + bounded-exhaustive two-level sweep against a Go-slice view model with bidirectional sharing probes",
+    level_text=("Generated-input search over nested Slice chains, valid and invalid, against an (offset,len,cap) model; exhaustive for "
+                "C<=3, K<=3 (5 thorough) over all first- and second-level ranges in [-2,K+2]^2 for all 13 types; extreme arguments sampled."),
+    level_note="Trusts Alloc and Sample/SetSample to build and observe fixtures; panics are observed with recover().",
+)
 
 NOT_APPLICABLE = {}
